@@ -327,9 +327,11 @@ def run(prog, tier):
     dangling_rule(prog, res)
     raw_owner_rule(prog, res)
     reloc_stable_rule(prog, res)
-    try:
-        import indexsites
-        indexsites.rule(prog, res, scope=None)
-    except ImportError:
-        res.not_decided.append('index-site inventory (rule 3) not built yet')
+    import indexsites
+    n = indexsites.rule(prog, res, scope=None)
+    res.minimum('index sites', n, 95)
+    # the "value count equals product of dimensions" invariant rests on the consistency predicate
+    # computing its products in full-width arithmetic
+    import p_c09
+    p_c09.consistency_width_rule(prog, res)
     return res
